@@ -12,7 +12,7 @@ EXPLANATION = ('Decides on the MIR of the current tree: a batch is appended to t
                'and journal readers compare every length and position that came from a file with the file size before using it and stop (not fail, not panic) at a short tail; the recovered '
                'offsets and positions have their confirmed normal forms (current offset from the last index entry, sizes from the file); the journal loader pushes an entry only after the '
                'continuity and checksum tests; every may-panic site on the start-up path is guarded by a recognised idiom or listed with the reason a crash image cannot trigger it. '
-               'Not decided: the prefix property for all crash points and torn lengths; fsync placement.')
+               'Also: at load the log is cut back to the end of the last indexed batch when the file is longer (the index entry is the commit marker; a torn or unindexed tail is discarded before anything is appended behind it) and the published size follows; every use of parse_index receives a chunks_exact(INDEX_SIZE) chunk, so a torn trailing index record is skipped, never sliced; nothing interprets a journal entry before its checksum was found equal and the first journal index must be 0. Not decided: the prefix property for all crash points and torn lengths; fsync placement.')
 ASSUMPTIONS = ['allowlist reasons in props/startup_panics.py (confirmed by reading)', 'forms in props/storage_forms.py and props/read_forms.py are the pinned representation']
 
 S = sf.SEG
@@ -115,6 +115,41 @@ def run(ctx, rep):
                         ends.add(canon(cb_._pexpr_rvalue(s_['rv'], 0, frozenset())))
         oke = any(re.match(r'^\(\w+\.1 \+ position\)$', f) for f in ends)
         rep.ob('R04.h', BEP, 'end = position + bytes read', oke, None, None if oke else 'batch end computed as %s' % sorted(ends))
+
+    # ------------------------------------------------------------ R04.i the index file is realigned before the writer appends
+    rep.rule('R04.i', 'a torn trailing index entry is cut off when the index file is opened for writing: the file is truncated to a multiple of INDEX_SIZE and the shared index size starts from the truncated length, so later entries stay aligned with the 16-byte grid the readers decode', floor=3, analysis='A9+A10')
+    IWN = 'server::streaming::segments::indexes::index_writer::SegmentIndexWriter::new'
+    import forms as forms__
+    sl = [f for _, f, _ in forms__.call_arg_forms(ctx, IWN, 'set_len', skip_self=True, cd=3)]
+    okt = bool(sl) and all(re.match(r'^phi\{\(\$u64 - \(\$u64 % (16|INDEX_SIZE)\)\) \| Metadata::len\(.*\)\}$', f) for f in sl)
+    rep.ob('R04.i', IWN, 'index truncated to a multiple of the entry size', okt, None, 'set_len(%s)' % sl[0][:80] if okt else 'the index file is not cut back to size - size %% INDEX_SIZE when it is opened for appending (set_len: %s)' % (sl or 'no call'))
+    st = [f for _, f, _ in forms__.call_arg_forms(ctx, IWN, 'Atomic::store', skip_self=False, cd=3) if f.startswith('index_size_bytes')]
+    oks = bool(st) and all(('% 16' in f or '% INDEX_SIZE' in f) for f in st)
+    rep.ob('R04.i', IWN, 'index size starts from the truncated length', oks, None, None if oks else 'index_size_bytes is initialised with %s' % st)
+    cf = comparison_forms(ctx, IWN)
+    okc = any(re.search(r'\(0 < \(.* % (16|INDEX_SIZE)\)\)', f) for v in cf.values() for f in v)
+    rep.ob('R04.i', IWN, 'only when a partial entry is present', okc, None, None if okc else 'no test of size %% INDEX_SIZE > 0 selects the truncation')
+
+    # ------------------------------------------------------------ R04.j an index entry exists only for a batch that is in the log
+    rep.rule('R04.j', 'recovery trusts the index: an index entry may be written only when its batch is in the log file, in every confirmation mode (save_index follows save_batches, and save_batches has written the bytes when it returns)', floor=2, analysis='A5+A2')
+    LW_, PT_ = LW, PT
+    sbb = ctx.fn_body(LW_ + '::save_batches')
+    CONF = 'iggy::confirmation::Confirmation'
+    sw_ = enum_switches(sbb, {CONF})
+    if not sw_:
+        rep.anchor_lost('R04.j', 'match on Confirmation in save_batches')
+    else:
+        bbx, tx, tyx = sw_[0]
+        for v, blocks in arm_regions(sbb, bbx).items():
+            vn = variant_name(ctx, tyx, v) if v != 'else' else None
+            if vn is None:
+                continue
+            wrote = [c for c in sbb.calls if c.bb in blocks and c.name == LW_ + '::write_batch']
+            queued = [c for c in sbb.calls if c.bb in blocks and c.name.startswith(PT_ + '::persist')]
+            okw = bool(wrote) and not queued
+            rep.ob('R04.j', LW_ + '::save_batches', 'batch written before its index entry: ' + vn, okw, (wrote or queued)[0].where() if (wrote or queued) else sbb.where(bbx),
+                   'the bytes are written in this arm before the function returns' if okw else
+                   'in the %s arm the batch is only queued while persist_messages goes on to save its index entry: a crash before the persister has written the batch leaves the index ahead of the log, and recovery restores current_offset from that entry (permanent offset gap; a poll reaching the partial batch decodes foreign bytes)' % vn)
 
     # ------------------------------------------------------------ R04.g the precondition the allowlisted slices of parse_index rely on
     rep.rule('R04.g', 'parse_index slices its argument at fixed positions up to INDEX_SIZE: every use receives a chunks_exact(INDEX_SIZE) chunk, so a torn trailing index record is skipped, never sliced', floor=3, analysis='A9 argument provenance')
